@@ -16,20 +16,30 @@ progress, and all texts it can bring back are free of NUL; no register holds a N
 the buffer (row 0 of an empty one) and the cursor column is not beyond its line; both counts are in
 `[0, 999999999]`.  Valid UTF-8 is *not* needed: the theorems hold for arbitrary bytes in the lines and the keys.
 
-**Assumptions about other layers** (explicit hypotheses; other modules' subjects):
-* `EngineOk` — `rstr_make` / `rstr_find` do not trap, and a match starts before the terminator of the subject;
-* `ExNoTrap`, `ExKeeps` — an ex command entered from vi (`:`, `ZZ`) on a state with the invariant does not trap and
-  keeps the buffer / register part of the invariant.
+**No assumption about the regular-expression layer is left**: for a pattern without NUL, `rstr_make` and `rstr_find` do
+not trap (`engine_no_trap`, proved from `Lemmas/C05e`), and a hit of `lbuf_search` lies on an existing line at a
+column `≤` the number of its characters (`search_hit_in`, proved outright).  The former hypothesis `EngineOk` was false
+(`Props/C05h.lean`); it, `ExNoTrap` and `ExKeeps` are still *defined* (C05h states its refutations about them) but no
+theorem here uses them.
 
-**Hypotheses that exclude the two traps that remain in the model** (`StepHyp`, per state an iteration starts from;
-they are *not* invariants, see the witnesses in section 5):
+**Hypotheses per state an iteration starts from** (`StepHyp`; none is an invariant of `ViOk`, see section 5):
 * `MarksIn` (also after the caret mark is set): a mark whose row lies beyond the buffer has column `≤ 0`.  It fails
   after the undo of an append at the end of the buffer (the marks `` `* `` `` `^ `` become `(len, column)`); an
   operator with the motion `` `* `` then traps *in the model*.  The C code is safe there (`lbuf_get` = NULL, both
   `uc_chr` return the same `""`): the model is stricter than the code — reported.
-* `SlashOk`: no counted `/` search that can be typed from the pending keys has a first match that reaches the end
+* `SearchOk`, three clauses:
+  `slash` — no counted `/` search that can be typed from the pending keys has a first match that reaches the end
   of its line.  Otherwise `lbuf_search` is restarted beyond the line; `uc_chr` returns its static `""` and the
-  pointer difference `"" - s` is formed (undefined, harmless at run time: `2/w[[:space:]]<CR>`).
+  pointer difference `"" - s` is formed (undefined, harmless at run time: `2/w[[:space:]]<CR>`);
+  `kwd` — the remembered pattern has no NUL (in truth an invariant of the editor, part of C05e's `Safe`; C05f's `SOk`
+  does not carry it and C05h's `sok_not_safe` pins that down.  Needed: `\` NUL makes `rstr_make` trap);
+  `pos` — the pattern in force after the prompt of a search `? n N ^A` typed from the pending keys matches *inside*
+  every line (`PatIn`: decidable, per pattern and line).  Needed only to *restart* a repeated search (`2n`) from its
+  previous hit: on a line that ends in a truncated multi-byte character `x*$` matches on the terminator, and the
+  second search of `2n` then starts beyond the line (witness: `Props/C05i.lean`, `repeated_search_overrun`).
+* `ColonOk` — the ex command the `:` prompt returns for the pending keys (and the `x` of `ZZ`) does not trap and keeps
+  the buffer / register part of the invariant (`ExCallOk line state`).  `Props/C05i.lean` derives the first half from
+  C05e for the lines of its class `ColonLineOk`.
 
 **Found on the way and repaired in the C code (and the model) before these proofs were finished** — both were real
 crashes (SIGSEGV in `uc_sub`): an operator with the motion `` `x `` when the marked line had become shorter
@@ -48,72 +58,100 @@ open Neatvi.Lemmas.C05f
 open Neatvi.Props.C05c (iterate)
 
 export Neatvi.Lemmas.C05f (wp NoNul LineOk HistOk BufsOk RegsOk SOk RowOk CursorOk ViOk StepHyp EngineOk ExNoTrap
-  ExKeeps ReOk MarksIn SlashOk SlashAt CurOk PosIn markCaret allQ OpPost CtPost isTrap oneLine trapsAfter NotTrap)
+  ExKeeps ReOk ReTot HitIn PatIn hitInside MarksIn SearchOk SearchAt searchKeys specialKeys SlashAt ExCallOk ColonOk ColonAt
+  CurOk PosIn markCaret allQ OpPost CtPost isTrap oneLine trapsAfter NotTrap sPre)
 
 /-! ## 1. one iteration -/
 
 /-- **one iteration of the loop of `vi()`** from a state with the invariant: it does not trap, and unless the
     editor is quitting the invariant holds again — for every key sequence -/
-theorem step_safe (hE : EngineOk) (hX1 : ExNoTrap) (hX2 : ExKeeps) {s : VS} (hv : ViOk s) (hm1 : MarksIn s)
-    (hm2 : MarksIn (markCaret s)) (hsl : SlashOk s) : wp viStep (fun _ s' => s'.ed.xquit = false → ViOk s') s :=
-  viStep_safe hE hX1 hX2 hv hm1 hm2 hsl
+theorem step_safe {s : VS} (hv : ViOk s) (hm1 : MarksIn s) (hm2 : MarksIn (markCaret s)) (hsl : SearchOk s)
+    (hcol : ColonOk s) : wp viStep (fun _ s' => s'.ed.xquit = false → ViOk s') s :=
+  viStep_safe hv hm1 hm2 hsl hcol
 
 /-- **no trap**: `ViOk s → viStep s ≠ Res.trap` -/
-theorem step_no_trap (hE : EngineOk) (hX1 : ExNoTrap) (hX2 : ExKeeps) {s : VS} (hv : ViOk s) (hm1 : MarksIn s)
-    (hm2 : MarksIn (markCaret s)) (hsl : SlashOk s) : viStep s ≠ Res.trap :=
-  viStep_no_trap hE hX1 hX2 hv hm1 hm2 hsl
+theorem step_no_trap {s : VS} (hv : ViOk s) (hm1 : MarksIn s) (hm2 : MarksIn (markCaret s)) (hsl : SearchOk s)
+    (hcol : ColonOk s) : viStep s ≠ Res.trap :=
+  viStep_no_trap hv hm1 hm2 hsl hcol
 
 /-- **preservation**: `ViOk s → viStep s = Res.ok () s' → ViOk s'` (unless the editor is quitting: then `vi()`
     leaves its loop) -/
-theorem step_keeps (hE : EngineOk) (hX1 : ExNoTrap) (hX2 : ExKeeps) {s s' : VS} (hv : ViOk s) (hm1 : MarksIn s)
-    (hm2 : MarksIn (markCaret s)) (hsl : SlashOk s) (h : viStep s = Res.ok () s') (hq : s'.ed.xquit = false) : ViOk s' :=
-  viStep_keeps hE hX1 hX2 hv hm1 hm2 hsl h hq
+theorem step_keeps {s s' : VS} (hv : ViOk s) (hm1 : MarksIn s) (hm2 : MarksIn (markCaret s)) (hsl : SearchOk s)
+    (hcol : ColonOk s) (h : viStep s = Res.ok () s') (hq : s'.ed.xquit = false) : ViOk s' :=
+  viStep_keeps hv hm1 hm2 hsl hcol h hq
 
 /-! ## 2. runs -/
 
 /-- **the invariant holds along every run** whose iterations start from states with `StepHyp` -/
-theorem run_invariant (hE : EngineOk) (hX1 : ExNoTrap) (hX2 : ExKeeps) (n : Nat) (s₀ s : VS) (h0 : ViOk s₀)
+theorem run_invariant (n : Nat) (s₀ s : VS) (h0 : ViOk s₀)
     (hh : ∀ k t, k ≤ n → iterate k s₀ = some t → StepHyp t) (h : iterate n s₀ = some s) : ViOk s :=
-  viOk_iterate hE hX1 hX2 n s₀ s h0 hh h
+  viOk_iterate n s₀ s h0 hh h
 
 /-- **no trap along any run**: the state after `n` completed commands does not trap on the next one -/
-theorem run_no_trap (hE : EngineOk) (hX1 : ExNoTrap) (hX2 : ExKeeps) (n : Nat) (s₀ s : VS) (h0 : ViOk s₀)
+theorem run_no_trap (n : Nat) (s₀ s : VS) (h0 : ViOk s₀)
     (hh : ∀ k t, k ≤ n → iterate k s₀ = some t → StepHyp t) (h : iterate n s₀ = some s) : viStep s ≠ Res.trap :=
-  no_trap_iterate hE hX1 hX2 n s₀ s h0 hh h
+  no_trap_iterate n s₀ s h0 hh h
 
 open Neatvi.Drive.ViD in
 /-- **the loop of the driver** (`runModel.loop`: stop at end of keys, trap, `xquit` or out of fuel) never ends in a
     trap, when the states it records satisfy `StepHyp` -/
-theorem driver_no_trap (hE : EngineOk) (hX1 : ExNoTrap) (hX2 : ExKeeps) (n f : Nat) (s : VS) (bds : List Bd)
+theorem driver_no_trap (n f : Nat) (s : VS) (bds : List Bd)
     (sts : List VS) (um : Option Nat) (hv : ViOk s)
     (hh : ∀ t ∈ (runModel.loop n f s bds sts um).states, StepHyp t) : NotTrap (runModel.loop n f s bds sts um).fin :=
-  loop_no_trap hE hX1 hX2 n f s bds sts um hv hh
+  loop_no_trap n f s bds sts um hv hh
 
 /-! ## 3. command by command -/
 
+/-- **the regular-expression layer on C strings** (what replaces the false `EngineOk`; proved from `Lemmas/C05e`):
+    compiling a pattern without NUL does not trap, and its matcher never traps, on any subject -/
+theorem engine_no_trap (kw : Bytes) (flg : Nat) (h0 : NoNul kw) :
+    ∃ r, rstrMake kw flg = some r ∧ ∀ re, r = some re → ReTot re := engine_c_strings kw flg h0
+
+/-- **`lbuf_search`** with a pattern without NUL, started on an existing character, never traps — whatever the bytes
+    of the lines -/
+theorem lbuf_search_no_trap (ls : Lines) (kw : Bytes) (ic : Bool) (dir r o : Int) (h0 : NoNul kw) (ho : o < slenAt ls r) :
+    search ls kw ic dir r o ≠ none := by
+  obtain ⟨res, h⟩ := search_total_c ls kw ic dir r o h0 ho
+  rw [h]; exact fun h => by cases h
+
+/-- **a hit of `lbuf_search`** lies on an existing line at a column `≤` the number of its characters (no hypothesis;
+    `=` is possible: C05h `search_hit_beyond_last_char`; `vi` then clamps the column) -/
+theorem search_hit_in (ls : Lines) (kw : Bytes) (ic : Bool) (dir r o : Int) (res : Option (Int × Int × Int))
+    (h : search ls kw ic dir r o = some res) : HitIn ls res := Lemmas.C05f.search_hit_in ls kw ic dir r o res h
+
+/-- … and on a character of its line when the pattern matches inside the lines (`PatIn`, decidable) -/
+theorem search_hit_strict (ls : Lines) (kw : Bytes) (ic : Bool) (dir r o : Int) (hl : ∀ l ∈ ls, LineOk l)
+    (hp : PatIn kw ic ls) (res : Option (Int × Int × Int)) (h : search ls kw ic dir r o = some res) :
+    ∀ r' o' len, res = some (r', o', len) → 0 ≤ r' ∧ r' < ls.length ∧ 0 ≤ o' ∧ o' < slenAt ls r' :=
+  Lemmas.C05f.search_hit_strict ls kw ic dir r o hl hp res h
+
 /-- **every motion** (`h j k l w b e W B E 0 ^ $ | f t F T ; , { } [[ ]] % G H L M + - _ ' ` / ? n N ^A space DEL`,
     and "no motion"): no trap, and a motion that succeeds returns a position inside the buffer -/
-theorem motion_no_trap (hE : EngineOk) (row off : Int) (s : VS) {c : Prop} (hs : SOk s c) (hcur : CurOk s row off)
-    (hmk : MarksIn s) (hsl : SlashOk s) :
+theorem motion_no_trap (row off : Int) (s : VS) {c : Prop} (hs : SOk s c) (hcur : CurOk s row off)
+    (hmk : MarksIn s) (hsl : SearchOk s) :
     viMotion row off s ≠ Res.trap ∧
     ∀ mv r o s', viMotion row off s = Res.ok (mv, r, o) s' → 0 < mv → PosIn (lines s) r o :=
-  viMotion_no_trap hE row off s hs hcur hmk hsl
+  viMotion_no_trap row off s hs hcur hmk hsl
 
-/-- **the searches** `/ ? n N ^A` started on the cursor: the only trap is the counted `/` (hypothesis `hsl`) -/
-theorem search_no_trap (hE : EngineOk) (cmd : Nat) (cnt r o : Int) (s : VS) {c : Prop} (hs : SOk s c)
+/-- **the searches** `/ ? n N ^A` started on the cursor, with a remembered pattern without NUL: the traps are the
+    counted `/` (hypothesis `hsl`) and the restart of a repeated `? n N` from a hit on the end of its line (`hpos`) -/
+theorem search_no_trap (cmd : Nat) (cnt r o : Int) (s : VS) {c : Prop} (hs : SOk s c) (hkw : NoNul s.ed.xkwd)
     (hp : PosIn (lines s) r o) (ho : lenOf s ≠ 0 → o < slenAt (lines s) r)
-    (hsl : cmd = 47 → 2 ≤ cnt → viSearch cmd cnt r o s ≠ Res.trap) : viSearch cmd cnt r o s ≠ Res.trap :=
-  viSearch_no_trap hE cmd cnt r o s hs hp ho hsl
+    (hsl : cmd = 47 → 2 ≤ cnt → viSearch cmd cnt r o s ≠ Res.trap)
+    (hpos : cmd ≠ 47 → 2 ≤ cnt → ∀ ab s1, sPre cmd s = Res.ok ab s1 → ∀ ic, PatIn s1.ed.xkwd ic (lines s)) :
+    viSearch cmd cnt r o s ≠ Res.trap :=
+  viSearch_no_trap cmd cnt r o s hs hkw hp ho hsl hpos
 
-/-- … in particular `? n N ^A`, and `/` without a count, never trap -/
-theorem search_no_trap_uncounted (hE : EngineOk) (cmd : Nat) (cnt r o : Int) (s : VS) {c : Prop} (hs : SOk s c)
-    (hp : PosIn (lines s) r o) (ho : lenOf s ≠ 0 → o < slenAt (lines s) r) (h : cmd ≠ 47 ∨ cnt ≤ 1) :
-    viSearch cmd cnt r o s ≠ Res.trap := viSearch_no_trap_uncounted hE cmd cnt r o s hs hp ho h
+/-- … in particular **no search without a count ever traps** (`/ ? n N ^A`): the only hypothesis is that the
+    remembered pattern is a C string -/
+theorem search_no_trap_uncounted (cmd : Nat) (cnt r o : Int) (s : VS) {c : Prop} (hs : SOk s c) (hkw : NoNul s.ed.xkwd)
+    (hp : PosIn (lines s) r o) (ho : lenOf s ≠ 0 → o < slenAt (lines s) r) (h : cnt ≤ 1) :
+    viSearch cmd cnt r o s ≠ Res.trap := viSearch_no_trap_uncounted cmd cnt r o s hs hkw hp ho h
 
 /-- **an operator with its motion** (`d y c > < ! g~ gu gU`, and through them `x X D C s S Y ~`) -/
-theorem operator_no_trap (hE : EngineOk) (cmd : Nat) {s : VS} {c : Prop} (hs : SOk s c) (hr : RowOk s)
-    (hmk : MarksIn s) (hsl : SlashOk s) : wp (vcMotion cmd) (fun _ s' => SOk s' False) s :=
-  wp_vcMotion hE cmd hs hr hmk hsl _ (fun _ _ h => h.1)
+theorem operator_no_trap (cmd : Nat) {s : VS} {c : Prop} (hs : SOk s c) (hr : RowOk s)
+    (hmk : MarksIn s) (hsl : SearchOk s) : wp (vcMotion cmd) (fun _ s' => SOk s' False) s :=
+  wp_vcMotion cmd hs hr hmk hsl _ (fun _ _ h => h.1)
 
 /-- the operators on any region inside the buffer -/
 theorem operators_on_region {s : VS} {c : Prop} (hs : SOk s c) (cmd : Nat) (r1 o1 r2 o2 : Int) (ln : Bool)
@@ -133,9 +171,9 @@ theorem put_join_replace_no_trap (cmd : Nat) {s : VS} {c : Prop} (hs : SOk s c) 
   ⟨wp_vcPut cmd hs hr _ (fun _ _ h => h.1), wp_vcJoin hs hr _ (fun _ _ h => h.1), wp_vcReplace hs hr _ (fun _ _ h => h.1)⟩
 
 /-- **the command switch** (everything that is not a plain motion, including `u ^R . @ : ZZ m z ^F ^B ^D ^U ^E ^Y`) -/
-theorem command_switch_no_trap (hE : EngineOk) (hX1 : ExNoTrap) (hX2 : ExKeeps) {s : VS} (hs : SOk s True) (hr : RowOk s)
-    (hoff : s.ed.xoff ≤ slenAt (lines s) s.ed.xrow) (hmk : MarksIn (markCaret s)) (hsl : SlashOk s) :
-    wp commandTail CtPost s := wp_commandTail hE hX1 hX2 hs hr hoff hmk hsl _ (fun _ _ h => h)
+theorem command_switch_no_trap {s : VS} (hs : SOk s True) (hr : RowOk s)
+    (hoff : s.ed.xoff ≤ slenAt (lines s) s.ed.xrow) (hmk : MarksIn (markCaret s)) (hsl : SearchOk s) (hcol : ColonOk s) :
+    wp commandTail CtPost s := wp_commandTail hs hr hoff hmk hsl hcol _ (fun _ _ h => h)
 
 /-- **`vi_wfix()`** never traps and puts the cursor back into the buffer, from any row and column -/
 theorem wfix_restores_cursor {s : VS} {c : Prop} (hs : SOk s c) :
@@ -159,29 +197,36 @@ theorem insert_rows_match_newlines (pref post : Bytes) (s : VS) {c : Prop} (hs :
 /-- the example state of `Props/C08b.lean` (lines `hello w`, `b`; cursor at the start) has the invariant … -/
 theorem example_state_ok (keys : Bytes) : ViOk (Props.C08b.exSt keys 0 0) := exSt_viOk keys
 
-/-- … and the per-state hypotheses, for every key sequence without `/` -/
-theorem example_state_hyp (keys : Bytes) (h : 47 ∉ keys) : StepHyp (Props.C08b.exSt keys 0 0) := exSt_stepHyp keys h
+/-- … and the per-state hypotheses, for every key sequence without the keys `/ ? n N ^A : Z` -/
+theorem example_state_hyp (keys : Bytes) (h : ∀ k ∈ specialKeys, k ∉ keys) : StepHyp (Props.C08b.exSt keys 0 0) :=
+  exSt_stepHyp keys h
 
-/-- so (given the assumptions on the other layers) no such key sequence makes the first command trap -/
-example (hE : EngineOk) (hX1 : ExNoTrap) (hX2 : ExKeeps) (keys : Bytes) (h : 47 ∉ keys) :
-    viStep (Props.C08b.exSt keys 0 0) ≠ Res.trap := exSt_no_trap hE hX1 hX2 keys h
+/-- so — **without any assumption on another layer** — no such key sequence makes the first command trap -/
+theorem example_first_step (keys : Bytes) (h : ∀ k ∈ specialKeys, k ∉ keys) :
+    viStep (Props.C08b.exSt keys 0 0) ≠ Res.trap := exSt_no_trap keys h
+
+example : viStep (Props.C08b.exSt [100, 119, 120] 0 0) ≠ Res.trap := example_first_step _ (by decide)
 
 /-- a buffer whose history is empty (a fresh literal buffer) with well-formed lines has the history invariant -/
 theorem fresh_buffer_ok (lb : Lb) (hh : lb.hist = []) (hu : lb.histU = 0) (hl : ∀ l ∈ lb.lines, LineOk l) :
     HistOk lb True := histOk_of_no_hist lb hh hu hl
 
-/-- `SlashOk` holds when no `/` is pending -/
-theorem slashOk_without_slash {s : VS} (h : (47 : Int) ∉ allQ s) : SlashOk s := slashOk_of_no_slash h
+/-- `SearchOk` holds when no search key (`/ ? n N ^A`) is pending and the remembered pattern has no NUL -/
+theorem searchOk_without_search {s : VS} (h : ∀ k ∈ searchKeys, k ∉ allQ s) (hk : NoNul s.ed.xkwd) : SearchOk s :=
+  searchOk_of_no_search h hk
+
+/-- `ColonOk` holds when neither `:` nor `Z` is pending -/
+theorem colonOk_without_colon {s : VS} (h1 : (58 : Int) ∉ allQ s) (h2 : (90 : Int) ∉ allQ s) : ColonOk s :=
+  colonOk_of_no_colon h1 h2
 
 /-- `MarksIn` survives setting the caret mark when the cursor is inside its line (mark tables of equal length) -/
 theorem marksIn_after_caret {s : VS} {c : Prop} (hs : SOk s c) (hm : MarksIn s)
     (hlen : ∀ lb, s.ed.lb = some lb → lb.mark.length = lb.markOff.length)
     (hoff : s.ed.xoff ≤ slenAt (lines s) s.ed.xrow) : MarksIn (markCaret s) := marksIn_caret hs hm hlen hoff
 
-/-- the assumption `EngineOk` is true at least on the literal fast path of `rstr.c`: for a pattern without
-    regular-expression characters (`rstr_simple`; the word search of `^A` is one) `rstr_make` does not trap and its
-    matcher never traps and reports matches that start inside the subject -/
-theorem engine_ok_on_literals (kw : Bytes) (flg : Nat) (h : (simple kw).isSome = true) :
+/-- on the literal fast path of `rstr.c` — a pattern without regular-expression characters (`rstr_simple`; the word
+    search of `^A` is one) — matches start inside the subject: the position clause that fails in general -/
+theorem literal_matches_inside (kw : Bytes) (flg : Nat) (h : (simple kw).isSome = true) :
     ∃ r, rstrMake kw flg = some r ∧ ∀ re, r = some re → ReOk re := engineOk_simple kw flg h
 
 /-! ## 5. the traps that remain in the model -/
